@@ -13,7 +13,7 @@ import (
 func init() {
 	register(
 		&Rule{ID: "R01.1", Props: []string{"C01"}, Floor: 6, Title: "raft ApplyTo: each branch writes the state and notifies the tracker with the same pin value; a failed state call never returns nil", Run: r011},
-		&Rule{ID: "R01.2", Props: []string{"C01", "C04", "C08"}, Floor: 2, Title: "raft ApplyTo: op.Cid is cleared before the tracker goroutines start (libp2p-raft decodes the next entry onto the same LogOp)", Run: r012},
+		&Rule{ID: "R01.2", Props: []string{"C01", "C04", "C08", "C10"}, Floor: 2, Title: "raft ApplyTo: op.Cid is cleared before the tracker goroutines start (libp2p-raft decodes the next entry onto the same LogOp)", Run: r012},
 		&Rule{ID: "R01.3", Props: []string{"C01"}, Floor: 7, Title: "wire enums tagged omitempty have no zero-valued constant (LogOp types, api.PinType)", Run: r013},
 		&Rule{ID: "R01.4", Props: []string{"C01", "C17"}, Floor: 5, Title: "raft commit/AddPeer/RmPeer return nil only when committed or redirected; negative retry counts are rejected", Run: r014},
 		&Rule{ID: "R01.5", Props: []string{"C01", "C14"}, Floor: 2, Title: "dsstate Unmarshal removes the namespace's keys before writing the snapshot's entries (restore replaces)", Run: r015},
